@@ -48,6 +48,8 @@ TrNormCmp ==
     /\ LET e == E
            na == Text(e.a)
            nb == Text(e.b) IN
+       \* (the harness compares only strings the library ACCEPTED; one the specification rejects must not get here)
+       IF ~(IsValid(e.a) /\ IsValid(e.b)) THEN DonePure(<< <<"C13.result", FALSE>> >>, {"NormCmp"}) ELSE
        DonePure(<< <<"C13.eq", e.res.eq = (na = nb)>>,
                    <<"C13.ord", e.res.ord = LexCmp(na, nb) /\ e.res.pord = LexCmp(na, nb)>>,
                    <<"C13.hash", (na = nb) => e.res.hashEq>>,
@@ -239,7 +241,7 @@ TrDraws ==
            allSite(s) == \A k \in 1..Len(e.sites) : e.sites[k] = s
            sample == 1..(IF n < 48 THEN n ELSE 48) IN
        DonePure(
-        IF e.site \in {"Salt", "IntegritySalt", "PinSalt", "MatrixSeed"} THEN
+        IF e.site \in {"Salt", "IntegritySalt", "PinSalt", "MatrixSeed", "CloneRefresh"} THEN
           << <<"C15.noRepeat", Distinct(e.obs)>>,
              <<"C15.byteVaries", ByteVaries(e.obs, MinDistinct(n))>>,
              <<"C15.bitVaries", BitVaries(e.obs)>>,
